@@ -22,7 +22,8 @@ package main
 //      against a shadow (iteration, EVERY Get, sibling-link traversal), storage health, the source
 //      is unchanged; then commit, reopen in a brand-new storage, the same comparison again, and a
 //      second, shorter burst on the reopened result.
-// Nothing is written to the model trace.  Tags: bl<k>.
+// Nothing is written to the model trace.  Tags: bl<k>; blc<j> = histories of copyshare_cmd.go (sources
+// with a past in a nested world), appended as an independent stream.
 
 import (
 	"fmt"
@@ -1514,7 +1515,7 @@ func (r *batchRun) lifeMapCopy(hr *Rng, maxLen, budget int) {
 
 // ---------------------------------------------------------------------------------------------
 
-const lifeRule = "mode life: -n histories, kinds in a fixed cycle (4 NewArrayFromBatchData, 2 ByteSliceToByteArray, 2 NewMapFromBatchData, 1 array CopyNonRefSimple, 1 map CopyNonRefSimple per 10), slab sizes {256,300,512,1024}; result shapes: single slab / one index slab / 2..4 index slabs on one level / three levels / free length (bounded by -steps*10 elements), streams from values or from the iterator of a source container in the same or another storage; then IN THE SAME SESSION 4..16 episodes of ordinary operations on the result (runs of inserts, removes, overwrites with bigger / smaller / external values at low, middle, high, 1/16-quantile and random positions, each up to three leaves long; appends, pops, front operations, scattered operations; maps: runs of new keys, removal / overwrite of neighbours in iteration order, scattered, absent keys); after every episode count + VerifyArray/VerifyMap; after the burst iteration, EVERY Get, sibling links, handed-back elements, type, storage health, source unchanged; commit, reopen in a new storage, same comparison (+ same iteration order for maps), second burst on the reopened result, second reopen; copies additionally: operate on the source, the copy keeps its content. non-trivial = built result has two or more index slabs on one level"
+const lifeRule = "mode life: -n histories, kinds in a fixed cycle (4 NewArrayFromBatchData, 2 ByteSliceToByteArray, 2 NewMapFromBatchData, 1 array CopyNonRefSimple, 1 map CopyNonRefSimple per 10), slab sizes {256,300,512,1024}; result shapes: single slab / one index slab / 2..4 index slabs on one level / three levels / free length (bounded by -steps*10 elements), streams from values or from the iterator of a source container in the same or another storage; then IN THE SAME SESSION 4..16 episodes of ordinary operations on the result (runs of inserts, removes, overwrites with bigger / smaller / external values at low, middle, high, 1/16-quantile and random positions, each up to three leaves long; appends, pops, front operations, scattered operations; maps: runs of new keys, removal / overwrite of neighbours in iteration order, scattered, absent keys); after every episode count + VerifyArray/VerifyMap; after the burst iteration, EVERY Get, sibling links, handed-back elements, type, storage health, source unchanged; commit, reopen in a new storage, same comparison (+ same iteration order for maps), second burst on the reopened result, second reopen; copies additionally: operate on the source, the copy keeps its content; plus max(10,n/10) histories blc<j> of the copyshare subcommand (sources with a past inside a nested world, copied and then operated on together with their copies, nested containers coming and going; see its rule). non-trivial = built result has two or more index slabs on one level"
 
 func (r *batchRun) runLife(a Args, rng *Rng, maxLen int) {
 	budget := max(600, a.Steps*8)
@@ -1551,6 +1552,21 @@ func (r *batchRun) runLife(a Args, rng *Rng, maxLen int) {
 		if r.failed {
 			r.rep.Event("life_history_with_violation")
 		}
+		r.lifeHists++
+	}
+	// histories blc<j>: copies (all five ways) of sources WITH A PAST inside a random nested world, then life
+	// of both the copy and the source with nested containers coming and going (copyshare_cmd.go).  An
+	// independent stream after the loop above, so that the histories bl<k> are what they always were.
+	cr := rng.Fork(0xC0B1E5)
+	steps := min(100, max(20, a.Steps))
+	for j := 0; j < max(10, a.N/10); j++ {
+		hr := cr.Fork(uint64(j))
+		tag := fmt.Sprintf("blc%d", j)
+		if !want(tag) {
+			continue
+		}
+		r.rep.Event("life_copy_world")
+		r.lifeSteps += csHistory(r.rep, 450000+j, tag, hr, steps)
 		r.lifeHists++
 	}
 }
